@@ -196,6 +196,10 @@ pub struct WireCase {
 	/// (batches) notifications mixed in between the entries: they are run but add nothing to the reply
 	#[serde(default)]
 	pub notifs: u8,
+	/// instead of the entries: one unsubscribe call over WebSocket whose (string) id is as long as it takes for the
+	/// answer `{"jsonrpc":"2.0","id":"...","result":false}` to have the length limit+delta
+	#[serde(default)]
+	pub unsub_probe: bool,
 }
 
 pub struct Wire;
@@ -230,11 +234,15 @@ impl SubCheck for Wire {
 			any::<bool>(),
 			proptest::bool::weighted(0.2),
 			prop_oneof![3 => Just(0u8), 1 => 1u8..4, 1 => 4u8..30],
+			proptest::bool::weighted(0.08),
 		)
-			.prop_map(|(limit, delta, entries, batch, ws, lowlevel, notifs)| WireCase { limit, delta, entries, batch, ws, lowlevel, notifs })
+			.prop_map(|(limit, delta, entries, batch, ws, lowlevel, notifs, unsub_probe)| WireCase { limit, delta, entries, batch, ws, lowlevel, notifs, unsub_probe })
 			.boxed()
 	}
 	fn run(&self, case: &WireCase, obs: &mut Obs) {
+		if case.unsub_probe {
+			return unsub_probe(case, obs);
+		}
 		let limit = case.limit as usize;
 		let entries: Vec<WireEntry> = if case.batch { case.entries.clone() } else { vec![case.entries[0].clone()] };
 		let n = entries.len();
@@ -384,6 +392,46 @@ impl SubCheck for Wire {
 			}
 		});
 	}
+}
+
+/// The answer of an unsubscribe call is a response like any other: the limit applies to it.
+fn unsub_probe(case: &WireCase, obs: &mut Obs) {
+	let limit = case.limit as usize;
+	let target = (limit as i64 + case.delta as i64).max(45) as usize;
+	let base = r#"{"jsonrpc":"2.0","id":"","result":false}"#.len();
+	let id = "i".repeat(target.saturating_sub(base));
+	let full = format!(r#"{{"jsonrpc":"2.0","id":"{id}","result":false}}"#);
+	let want = if full.len() <= limit { full.clone() } else { format!(r#"{{"jsonrpc":"2.0","id":"{id}","error":{{"code":-32008,"message":"Response is too big","data":"Exceeded max limit of {limit}"}}}}"#) };
+	obs.class("unsubscribe-answer");
+	if full.len().abs_diff(limit) <= 2 {
+		obs.nontrivial();
+		obs.class("boundary");
+	}
+	let rt = rt();
+	rt.block_on(async {
+		let fix = Fixture::new(Cfg { max_response: case.limit, ..Cfg::default() });
+		let ws = if case.lowlevel { fix.ws_lowlevel().await } else { fix.ws().await };
+		let Ok(mut ws) = ws else {
+			obs.fail("c08/ws-handshake", "failed");
+			return;
+		};
+		let msg = format!(r#"{{"jsonrpc":"2.0","id":"{id}","method":"unsub_a","params":[1]}}"#);
+		let _ = ws.send_text(&msg).await;
+		settle().await;
+		let frames = ws.drain_texts();
+		if frames.len() != 1 {
+			obs.fail("c08/ws-frame-count", format!("limit={limit} unsubscribe with an id of {} characters => {} frames", id.len(), frames.len()));
+			return;
+		}
+		let got = &frames[0];
+		let same = serde_json::from_str::<Value>(got).ok() == serde_json::from_str::<Value>(&want).ok() && got.len() == want.len();
+		if !same {
+			obs.fail(
+				if full.len() <= limit { "c08/fitting-reply-changed" } else { "c08/oversized-reply-not-replaced" },
+				format!("limit={limit}: the answer of an unsubscribe call would be {} bytes; want({})={} got({})={}", full.len(), want.len(), truncate(&want, 200), got.len(), truncate(got, 200)),
+			);
+		}
+	});
 }
 
 pub fn check(ctx: &mut Ctx) {
